@@ -252,7 +252,7 @@ def obj_attr(ctx, fr, path, o, attr, node=None):
             groups.setdefault(("c", id(cc[1])), (cc, []))[1].append(ci)
             continue
         ann = ci.all_fields().get(attr)
-        if ann is None and ci.extern is not None:
+        if ann is None:
             ann = ctx.extern_field_ann(ci, attr)
         groups.setdefault(("f", repr(ann)), (ann, []))[1].append(ci)
     if len(groups) == 1:
@@ -310,8 +310,71 @@ def _enum_value(ctx, ci, mv):
 
 
 # ------------------------------------------------------------------------------------------------ operators
+_PURE_CALLS = {"isinstance", "len", "hasattr", "startswith", "endswith", "is_internal", "str", "bool", "int"}
+
+
+def is_pure_expr(node):
+    """Syntactically side-effect free and cheap: may be evaluated without forking under a guard."""
+    for n in ast.walk(node):
+        if isinstance(n, ast.Call):
+            f = n.func
+            nm = f.id if isinstance(f, ast.Name) else (f.attr if isinstance(f, ast.Attribute) else None)
+            if nm not in _PURE_CALLS:
+                return False
+        elif isinstance(n, (ast.NamedExpr, ast.Lambda, ast.ListComp, ast.SetComp, ast.GeneratorExp, ast.DictComp,
+                            ast.Await, ast.Yield, ast.YieldFrom)):
+            return False
+    return True
+
+
+def ev_guarded(ctx, fr, path, node, guard):
+    """Evaluate a pure expression on `path` under an extra guard (for safety obligations) without forking.
+    Returns the value, or None if the evaluation forks or changes state."""
+    q = path.fork()
+    if guard is not None:
+        q.pc.append(guard)
+    n_ob = len(ctx.obligations)
+    try:
+        outs = list(ev(ctx, fr, q, node))
+    except Unsupported:
+        del ctx.obligations[n_ob:]
+        return None
+    if len(outs) != 1 or outs[0][0] is not q:
+        del ctx.obligations[n_ob:]
+        return None
+    r, v = outs[0]
+    if len(r.pc) != len(q.pc):
+        del ctx.obligations[n_ob:]
+        return None
+    # facts learned (typing, builtin axioms) are kept, guarded
+    for f in r.facts[len(path.facts):]:
+        path.facts.append(f if guard is None else z3.Implies(guard, f))
+    for k, a in r.sets.items():
+        path.sets.setdefault(k, a)
+    for k, d in r.dicts.items():
+        path.dicts.setdefault(k, d)
+    return v
+
+
 def e_BoolOp(ctx, fr, path, node):
     is_or = isinstance(node.op, ast.Or)
+    if all(is_pure_expr(v) for v in node.values):
+        # merged evaluation: no fork; later operands are evaluated under the guard of the earlier ones
+        guard = None
+        terms = []
+        ok = True
+        for vnode in node.values:
+            v = ev_guarded(ctx, fr, path, vnode, guard)
+            if v is None or not isinstance(v, Val) or ctx.kind(v) != "VBool":
+                ok = False
+                break
+            c = ctx.truthy(path, v)
+            terms.append(c)
+            g = simp(z3.Not(c)) if is_or else c
+            guard = g if guard is None else simp(z3.And(guard, g))
+        if ok:
+            yield path, ctx.boolval(z3.Or(terms) if is_or else z3.And(terms))
+            return
 
     def go(p, vals):
         for q, v in ev(ctx, fr, p, vals[0]):
@@ -665,6 +728,21 @@ def py_in(ctx, fr, p, x, cont, node=None):
 
 
 def e_IfExp(ctx, fr, path, node):
+    if is_pure_expr(node.test) and is_pure_expr(node.body) and is_pure_expr(node.orelse):
+        # merged evaluation: value-level ite, no fork
+        tv = ev_guarded(ctx, fr, path, node.test, None)
+        if isinstance(tv, Val):
+            c = simp(ctx.truthy(path, tv))
+            if z3.is_true(c) or z3.is_false(c):
+                yield from ev(ctx, fr, path, node.body if z3.is_true(c) else node.orelse)
+                return
+            a = ev_guarded(ctx, fr, path, node.body, c)
+            b = ev_guarded(ctx, fr, path, node.orelse, simp(z3.Not(c)))
+            if isinstance(a, Val) and isinstance(b, Val):
+                ann = a.ann if a.ann == b.ann else None
+                own = "imm" if (a.own == "imm" and b.own == "imm") else ("borrow" if "borrow" in (a.own, b.own) else "fresh")
+                yield path, Val(simp(z3.If(c, a.t, b.t)), ann, own=own, deep=a.deep and b.deep)
+                return
     for p, c in ev(ctx, fr, path, node.test):
         for q, tv in ctx.branch(p, ctx.truthy(p, c), f"ifexp@{node.lineno}"):
             yield from ev(ctx, fr, q, node.body if tv else node.orelse)
@@ -826,18 +904,14 @@ def rec_lookup(ctx, p, rec: Val, key: Val, node=None, must=True):
                 ctx.safety(p, z3.Or(present) if present else z3.BoolVal(False), "dict key present", _where(node))
             if res is None:
                 res = V.VNone
-            ann = None
-            if rec.ann is not None and rec.ann[0] == "rec" and isinstance(rec.ann[1], dict):
-                lit = smt.str_lit(V.s(kt)) if smt.ctor(kt) == "VStr" else None
-                ann = rec.ann[1].get(lit)
+            lit = smt.str_lit(V.s(kt)) if smt.ctor(kt) == "VStr" else None
+            ann = ctx.rec_field_ann(rec.ann, lit)
             return Val(simp(res), ann, own=rec.own if rec.own != "imm" else "imm", deep=rec.deep)
     # opaque record
     if must:
         ctx.safety(p, smt.rhas(t, kt), "dict key present", _where(node))
-    ann = None
-    if rec.ann is not None and rec.ann[0] == "rec" and isinstance(rec.ann[1], dict):
-        lit = smt.str_lit(V.s(kt)) if smt.ctor(kt) == "VStr" else None
-        ann = rec.ann[1].get(lit)
+    lit = smt.str_lit(V.s(kt)) if smt.ctor(kt) == "VStr" else None
+    ann = ctx.rec_field_ann(rec.ann, lit)
     v = Val(simp(smt.rget(t, kt)), ann, own=rec.own, deep=rec.deep, src=("item", rec, key))
     f = ann_fact(v.t, ann, ctx.ct)
     if f is not None:
@@ -868,6 +942,7 @@ def rec_store(ctx, p, rec: Val, key: Val, val: Val):
     nt = rset(t, kt, val.t)
     p.assume(smt.rget(nt, kt) == val.t, "record update axioms")
     p.assume(smt.rhas(nt, kt))
+    p.assume(V.is_VRec(nt))
     ctx.rset_terms = getattr(ctx, "rset_terms", [])
     ctx.rset_terms.append((nt, t, kt))
     return Val(nt, rec.ann, own=rec.own, deep=rec.deep and not (val.own == "borrow"))
